@@ -59,6 +59,11 @@ CFG = {
         "Swat4.C06.acts_as_wellformed",
         "Swat4.C06.facts_ok",
         "Swat4.C06.udp_socket_never_panics", "Swat4.C06.udp_socket_delivers",
+        "Swat4.C06.facts_tcp_deadline",
+        "Swat4.C06.facts_rest_recovery",
+        "Swat4.C06.facts_browser_read_buffer",
+        "Swat4.C06.facts_udp_read_buffer",
+        "Swat4.C06.facts_partial_ops_browser",
     ],
     "shards": (4, 8),
     "nontrivial": _c06_nontrivial,
